@@ -74,6 +74,20 @@ example : ∃ text, parseCMap text = some exSecs := by
   obtain ⟨text, h⟩ := exText
   exact ⟨text, parseCMap_complete h⟩
 
+/-- `/CIDSystemInfo` LF `<< /Registry (Adobe)/Supplement 0 >> def` LF : a literal value, no space
+before the next key, an integer value followed by a blank -/
+example : DMeta (strBytes "/CIDSystemInfo" ++ [10] ++ [60, 60] ++ [32] ++
+    ((47 :: [82] ++ [32] ++ (40 :: [65, 100] ++ [41]) ++ []) ++ ((47 :: [83] ++ [32] ++ [48] ++ [32]) ++ [])) ++
+    [62, 62] ++ [32] ++ strBytes "def" ++ [10]) :=
+  .cid [10] [32] _ [32] [10] [(), ()] ms_lf (.ws 32 _ (by simp) .nil)
+    (.cons () [()] _ _
+      (.mk [82] [32] _ [] (by intro b hb; simp at hb; subst hb; decide) (.ws 32 _ (by simp) .nil)
+        (.lit [65, 100] (by intro c hc; simp at hc; rcases hc with rfl | rfl <;> decide)) (Or.inl (by simp)) .nil)
+      (.cons () [] _ _
+        (.mk [83] [32] [48] [32] (by intro b hb; simp at hb; subst hb; decide) (.ws 32 _ (by simp) .nil)
+          (.int [48] (digits1 48 (by decide))) (Or.inl (by simp)) (.ws 32 _ (by simp) .nil)) .nil))
+    ⟨.ws 32 _ (by simp) .nil, by simp⟩ ms1_lf
+
 /-! ### what the frame does not tolerate -/
 
 /-- an END-OF-LINE between `/CIDInit` and `/ProcSet` (the parser skips only blanks there):
